@@ -1,7 +1,16 @@
 (* Props_C20.v — property C20: files locked by another process are left alone.
    Statements only; proofs are `exact <lemma of AtomicProofs4>`.
 
-   locks s i = true : another process holds a conflicting fcntl lock on inode i.
+   locks s i = true : another process holds an fcntl lock — of ANY mode (read or write) on ANY byte range, inside or
+   beyond the current end of file — on inode i.  LockW conflicts with every such lock because lock.rs requests a WRITE
+   lock on the WHOLE file: struct flock { l_type = F_WRLCK, l_whence = SEEK_SET, l_start = 0, l_len = 0 }, and
+   l_len = 0 means "up to the largest possible offset", so every range overlaps and a write lock conflicts with read
+   locks too.  That is what makes a per-inode boolean a faithful lock table; the correspondence check reads the
+   struct flock of every fcntl(F_SETLK) call from the shim's trace and requires exactly these values, and holds
+   foreign read / write locks on [0,1), a middle byte, [EOF,EOF+1), [EOF,inf) and a sentinel byte at 1 GiB.
+   Permissions are not modelled: if the probe's open(O_WRONLY) is refused (EACCES, e.g. a 0444 file without
+   CAP_DAC_OVERRIDE) the model receives that refusal as a fault of the OpenW call; it is not Unsupported, so the
+   command fails and the file is left alone (checked for real with the capabilities dropped).
    Stated boundary (not a finding): `let _ = maybe_lock(..)?` drops the guard at once, so the lock is a
    check-then-act probe (OpenW; LockW; UnlockW; then the command) — a lock taken by the other process after
    the probe is not seen.  maybe_lock swallows errors of kind Unsupported (EOPNOTSUPP / ENOTSUP from the open
